@@ -58,6 +58,8 @@ pub struct Prog {
     #[serde(default)]
     pub aws: Vec<String>,
     #[serde(default)]
+    pub slots: Vec<String>,
+    #[serde(default)]
     pub tls: Vec<String>,
     #[serde(default)]
     pub lzs: Vec<String>,
@@ -226,6 +228,8 @@ pub struct Sh {
     txs: Vec<US<Option<loom::sync::mpsc::Sender<usize>>>>,
     rxs: Vec<US<Option<loom::sync::mpsc::Receiver<usize>>>>,
     aws: Vec<loom::future::AtomicWaker>,
+    /// raw waker slots: plain shared memory (a std mutex held only for the swap itself)
+    slots: Vec<std::sync::Mutex<Option<std::task::Waker>>>,
     handles: US<HashMap<String, Slot>>,
     trks: US<HashMap<String, loom::alloc::Track<()>>>,
     jh: US<HashMap<usize, loom::thread::JoinHandle<()>>>,
@@ -250,6 +254,9 @@ impl Drop for Sh {
             for a in self.aws.drain(..) {
                 std::mem::forget(a);
             }
+            for s in self.slots.drain(..) {
+                std::mem::forget(s);
+            }
         }
     }
 }
@@ -270,7 +277,7 @@ impl Sh {
         let mut idx = HashMap::new();
         for list in [
             &prog.atoms, &prog.cells, &prog.mtxs, &prog.rws, &prog.cvs, &prog.ntfs, &prog.chans,
-            &prog.arcs, &prog.aws,
+            &prog.arcs, &prog.aws, &prog.slots,
         ] {
             for (i, n) in list.iter().enumerate() {
                 idx.insert(n.clone(), i);
@@ -287,6 +294,7 @@ impl Sh {
         let cvs = prog.cvs.iter().map(|_| loom::sync::Condvar::new()).collect();
         let ntfs = prog.ntfs.iter().map(|_| loom::sync::Notify::new()).collect();
         let aws = prog.aws.iter().map(|_| loom::future::AtomicWaker::new()).collect();
+        let slots = prog.slots.iter().map(|_| std::sync::Mutex::new(None)).collect();
         let mut txs = vec![];
         let mut rxs = vec![];
         for _ in prog.chans.iter() {
@@ -332,6 +340,7 @@ impl Sh {
             txs,
             rxs,
             aws,
+            slots,
             handles: US::new(handles),
             trks: US::new(HashMap::new()),
             jh: US::new(HashMap::new()),
@@ -364,6 +373,49 @@ impl std::future::Future for Fut {
             self.sh.aws[self.aw].register_by_ref(cx.waker());
         }
         std::task::Poll::Pending
+    }
+}
+
+/// The raw-waker future of C20: stash clones of the waker in plain slots, then test one or two flags.
+struct RawFut {
+    sh: SArc<Sh>,
+    s1: usize,
+    s2: Option<usize>,
+    f1: usize,
+    f2: Option<usize>,
+    ready: usize,
+    ord: Ordering,
+    polls: SArc<StdAtomicUsize>,
+}
+fn stash(sh: &Sh, slot: usize, w: std::task::Waker) {
+    let old = {
+        let mut g = sh.slots[slot].lock().unwrap();
+        std::mem::replace(&mut *g, Some(w))
+    };
+    drop(old); // outside the std lock: dropping a waker is a loom operation
+}
+impl std::future::Future for RawFut {
+    type Output = usize;
+    fn poll(self: std::pin::Pin<&mut Self>, cx: &mut std::task::Context<'_>) -> std::task::Poll<usize> {
+        self.polls.fetch_add(1, StdOrd::SeqCst);
+        stash(&self.sh, self.s1, cx.waker().clone());
+        if let Some(s2) = self.s2 {
+            stash(&self.sh, s2, cx.waker().clone());
+        }
+        // announce that the slots are filled (relaxed: orders nothing, the wakers just wait for it)
+        self.sh.atoms[self.ready].get().store(1, Ordering::Relaxed);
+        let v = self.sh.atoms[self.f1].get().load(self.ord);
+        if v == 0 {
+            return std::task::Poll::Pending;
+        }
+        if let Some(f2) = self.f2 {
+            let g = self.sh.atoms[f2].get().load(self.ord);
+            if g == 0 {
+                return std::task::Poll::Pending;
+            }
+            return std::task::Poll::Ready(g);
+        }
+        std::task::Poll::Ready(v)
     }
 }
 
@@ -665,6 +717,38 @@ fn run_thread(sh: SArc<Sh>, t: usize) {
             }
             // read the instance's own cell through the reference the last lzget returned
             "lzread" => lzrefs.get(&ins.o).expect("harness: lzread without lzget").own.get().with(|_| ()),
+            "blockon" if ins.k == "raw" => {
+                let polls = SArc::new(StdAtomicUsize::new(0));
+                let f = RawFut {
+                    sh: sh.clone(),
+                    s1: oi(),
+                    s2: if ins.ord2.is_empty() { None } else { Some(sh.idx[&ins.ord2]) },
+                    f1: sh.idx[&ins.o2],
+                    f2: if ins.w != 0 { Some(sh.idx[&format!("{}2", ins.o2)]) } else { None },
+                    ready: sh.idx[&format!("{}r", ins.o2)],
+                    ord: ord(&ins.ord),
+                    polls: polls.clone(),
+                };
+                let v = loom::future::block_on(f);
+                res = Some((v * 100 + polls.load(StdOrd::SeqCst)) as i64);
+            }
+            "wakeslot" => {
+                let w = sh.slots[oi()].lock().unwrap().take();
+                if let Some(w) = w {
+                    w.wake();
+                }
+            }
+            "wakeref" => {
+                let w = sh.slots[oi()].lock().unwrap().take();
+                if let Some(w) = w {
+                    w.wake_by_ref();
+                    let old = {
+                        let mut g = sh.slots[oi()].lock().unwrap();
+                        if g.is_none() { *g = Some(w); None } else { Some(w) }
+                    };
+                    drop(old);
+                }
+            }
             "blockon" => {
                 let polls = SArc::new(StdAtomicUsize::new(0));
                 let f = Fut { sh: sh.clone(), aw: oi(), flag: sh.idx[&ins.o2], ord: ord(&ins.ord), reg_first: ins.k == "reg-check", polls: polls.clone() };
